@@ -1,8 +1,38 @@
+import Magog.Lemmas.Geometry
 import Magog.Model.Eval
-import Magog.Model.Time
 
-/-! Property C15 — theorems (see DESIGN §5). -/
+/-! Property C15 — static evaluation is colour-symmetric. -/
 
 namespace Magog.Props.C15
+open Magog Magog.Model Magog.Geo
+
+/-- colour flip of a square: ranks reversed -/
+def mirrorSq (s : Nat) : Nat := s ^^^ 0x70
+
+def tablePairs : List (List Int × List Int) :=
+  [(Gen.sqTablePawnsWhite, Gen.sqTablePawnsBlack), (Gen.sqTableKnightsWhite, Gen.sqTableKnightsBlack),
+   (Gen.sqTableBishopsWhite, Gen.sqTableBishopsBlack), (Gen.sqTableRooksWhite, Gen.sqTableRooksBlack),
+   (Gen.sqTableQueensWhite, Gen.sqTableQueensBlack), (Gen.sqTableKingMidgameWhite, Gen.sqTableKingMidgameBlack),
+   (Gen.sqTableKingEndgameWhite, Gen.sqTableKingEndgameBlack)]
+
+def pstMirrorCheck : Bool :=
+  tablePairs.all fun (w, b) => w.length == 128 && b.length == 128 &&
+    sq88.all fun s => w[s]? == b[mirrorSq s]?
+
+set_option maxRecDepth 100000 in
+theorem pstMirrorCheck_true : pstMirrorCheck = true := by decide +kernel
+
+/-- **table symmetry** (on the tables regenerated from pieceSquareTables.go): every white table is the
+    rank-mirrored black table, for all seven pairs and all 64 squares; all tables have 128 entries -/
+theorem pst_mirror (w b : List Int) (hp : (w, b) ∈ tablePairs) (s : Nat) (hs : s ∈ sq88) :
+    w.length = 128 ∧ b.length = 128 ∧ w[s]? = b[mirrorSq s]? := by
+  have h := pstMirrorCheck_true
+  simp only [pstMirrorCheck, List.all_eq_true, Bool.and_eq_true, beq_iff_eq] at h
+  obtain ⟨⟨h1, h2⟩, h3⟩ := h (w, b) hp
+  exact ⟨h1, h2, h3 s hs⟩
+
+theorem mirrorSq_invol (s : Nat) (hs : s ∈ sq88) : mirrorSq (mirrorSq s) = s ∧ mirrorSq s ∈ sq88 := by
+  have : ∀ s ∈ sq88, mirrorSq (mirrorSq s) = s ∧ mirrorSq s ∈ sq88 := by decide
+  exact this s hs
 
 end Magog.Props.C15
